@@ -10,6 +10,7 @@ package beacon
 import (
 	"context"
 	"fmt"
+	"os"
 	"sort"
 	"strings"
 	"sync"
@@ -54,7 +55,7 @@ func c07Gen(idx int) c07Case {
 	}
 	c := c07Case{Index: idx, Scheme: schemes[idx%len(schemes)].Name, Backend: []string{"bolt-trimmed", "memdb", "bolt-untrimmed"}[rng.Intn(3)],
 		Shape: []string{"same", "add", "remove", "replace", "thr-up", "thr-down"}[(idx/len(schemes))%6], PeriodS: rng.Range(2, 4), Seed: seed,
-		AtRound: rng.Range(3, 6), Lead: rng.Range(2, 4), Outage: []string{"none", "none", "one-remainer-down-across-transition", "loss"}[rng.Intn(4)], Epochs: 1}
+		AtRound: rng.Range(3, 6), Lead: rng.Range(1, 4), Outage: []string{"none", "none", "one-remainer-down-across-transition", "loss"}[rng.Intn(4)], Epochs: 1}
 	c.CatchupS = []int{0, 1}[rng.Intn(2)]
 	c.N1 = rng.Range(3, 5)
 	c.T1 = c.N1/2 + 1
@@ -192,6 +193,17 @@ func c07RunMode(run *vfRun, c c07Case, mode string) {
 		}
 	}
 	nt.mu.Unlock()
+	if os.Getenv("VF_DEBUG") != "" {
+		var dn int64
+		for _, n := range nt.nodes {
+			n := n
+			n.logger.sink = func(level, msg string, kv []interface{}) {
+				if atomic.AddInt64(&dn, 1) < 60 {
+					run.Note(fmt.Sprintf("DEBUG n%d %s %s %v", n.pos, level, msg, kv))
+				}
+			}
+		}
+	}
 	if err := nt.StartAll(); err != nil {
 		run.Inconclusive(err.Error())
 		return
@@ -214,7 +226,25 @@ func c07RunMode(run *vfRun, c c07Case, mode string) {
 	members2, t2 := c.Members2, c.T2
 	for ep := 0; ep < c.Epochs; ep++ {
 		clockRound := nt.clockRound(nt.nodes[cur.members[0]])
-		tRound := clockRound + uint64(c.Lead)
+		lead := c.Lead
+		if lead == 1 {
+			// "late registration": the transition is the very next round, so round tRound-1 is already stored
+			// when core registers the switch. Only meaningful when every member is in that same state (core never
+			// announces a transition this late; with some members still short of tRound-1 the group would split
+			// between old and new shares for good) — otherwise fall back to the ordinary lead.
+			for _, pos := range cur.members {
+				if n := nt.nodes[pos]; !n.running || nt.Head(n) != clockRound {
+					lead = 2
+				}
+			}
+			if c.Outage != "none" {
+				lead = 2
+			}
+			if lead == 1 {
+				run.Count("late_registrations", 1)
+			}
+		}
+		tRound := clockRound + uint64(lead)
 		next := c07Reshare(nt, cur, append([]int(nil), members2...), t2, tRound, rng)
 		inNext := map[int]bool{}
 		for _, p := range next.members {
@@ -317,6 +347,15 @@ func c07RunMode(run *vfRun, c c07Case, mode string) {
 				run.Violation(fmt.Sprintf("C07/chain-halts-after-transition/%s/%s", c.Shape, c.Outage),
 					fmt.Sprintf("transition at round %d, %d of %d new-group members running (threshold %d); %d logical seconds later still behind: %v", tRound, len(live), len(next.members), next.group.Threshold, 2*B, who), info)
 				return
+			}
+		}
+		// from the transition on only the new group counts: every running remainer's vault must have switched
+		if mode == "c07" {
+			for _, v := range live {
+				if v.handler != nil && nt.Head(v) >= tRound && v.handler.crypto.GetGroup().TransitionTime != next.group.TransitionTime {
+					run.Violation(fmt.Sprintf("C07/node-never-switched-to-new-group/%s", c.Shape),
+						fmt.Sprintf("node %d stores round %d (transition round %d) but its vault still runs the previous group", v.pos, nt.Head(v), tRound), info)
+				}
 			}
 		}
 		// a few rounds under the new group, with old-share partials thrown at nodes that have switched
